@@ -349,7 +349,7 @@ def run(case):
     out = Outcome()
     fs = SimFS()
     env.restore_registry()
-    env.bf3file.open = fs.open
+    env.use_fs(fs)
     kind = case["kind"]
     name = {"bf3": "fw.bf3", "bec2": "dev.bec2", "bf2": "fw.bf2"}[kind]
     try:
